@@ -333,6 +333,19 @@ func (b *boundsAn) aliases(v ssa.Value) []ssa.Value {
 				}
 			}
 		}
+		// other loads of a local cell that is written once (a captured parameter spilled by go/ssa)
+		if ld, ok := x.(*ssa.UnOp); ok && ld.Op == token.MUL {
+			if al, ok := ld.X.(*ssa.Alloc); ok {
+				if sts := cellStores(al); len(sts) == 1 {
+					add(sts[0].Val)
+					for _, ref := range *al.Referrers() {
+						if l2, ok := ref.(*ssa.UnOp); ok && l2.Op == token.MUL {
+							add(l2)
+						}
+					}
+				}
+			}
+		}
 		// other loads of the same field on the same base value
 		if ld, ok := x.(*ssa.UnOp); ok && ld.Op == token.MUL {
 			if fa, ok := ld.X.(*ssa.FieldAddr); ok {
@@ -475,7 +488,7 @@ func (b *boundsAn) directGuard(v ssa.Value, at *ssa.BasicBlock, kind guardKind, 
 					continue
 				}
 			}
-			if kind == gUpper && b.tv[other] && !isLenCall(other) && (depth > 3 || !b.isGuarded(other, blk, gUpper, depth+2)) {
+			if kind == gUpper && b.tv[other] && !isLenLike(other) && (depth > 3 || !b.isGuarded(other, blk, gUpper, depth+2)) {
 				continue // compared with another unbounded device value
 			}
 			up, nz := cmpEdges(bin, mOnX, other)
@@ -609,6 +622,12 @@ func (b *boundsAn) maxBits(v ssa.Value, depth int) int {
 			return min(tb, a+1)
 		case token.SUB:
 			return min(tb, b.maxBits(x.X, depth+1))
+		case token.XOR, token.OR:
+			a, bb := b.maxBits(x.X, depth+1), b.maxBits(x.Y, depth+1)
+			if bb > a {
+				a = bb
+			}
+			return min(tb, a)
 		}
 	case *ssa.UnOp:
 		if x.Op == token.MUL {
@@ -1116,6 +1135,166 @@ func isLenCall(v ssa.Value) bool {
 	}
 	bi, ok := c.Call.Value.(*ssa.Builtin)
 	return ok && (bi.Name() == "len" || bi.Name() == "cap")
+}
+
+// isLenLike: len(x) or cap(x), possibly plus/minus a constant (`len(table)-1 < int(index)`).
+func isLenLike(v ssa.Value) bool {
+	for i := 0; i < 4; i++ {
+		v = stripConv(v)
+		if isLenCall(v) {
+			return true
+		}
+		bo, ok := v.(*ssa.BinOp)
+		if !ok || (bo.Op != token.ADD && bo.Op != token.SUB) {
+			return false
+		}
+		if _, isC := constInt(bo.Y); isC {
+			v = bo.X
+		} else if _, isC := constInt(bo.X); isC && bo.Op == token.ADD {
+			v = bo.Y
+		} else {
+			return false
+		}
+	}
+	return false
+}
+
+// indexFitsArray: the sink indexes a fixed-size array and the operand's type and constant operands (masks, shifts,
+// conversions from narrower types) keep it below the array length: `tab[(crc>>8)&0xff ^ uint16(b)]` with 256 entries.
+func (b *boundsAn) indexFitsArray(ins ssa.Instruction, idx ssa.Value) bool {
+	var t types.Type
+	switch x := ins.(type) {
+	case *ssa.IndexAddr:
+		t = deref(x.X.Type())
+	case *ssa.Index:
+		t = x.X.Type()
+	default:
+		return false
+	}
+	arr, ok := t.Underlying().(*types.Array)
+	if !ok {
+		return false
+	}
+	bitsN := b.maxBits(idx, 0)
+	return bitsN < 62 && int64(1)<<uint(bitsN) <= arr.Len()
+}
+
+// indexIntoGrownSlice: the sink is s[i-c] (c >= 0 constant) where i counts the iterations of the enclosing loop from a
+// non-negative constant in steps of one, and s is a field (or local cell) that the loop extends by one append in every
+// iteration before the index is evaluated and before i is incremented: at the sink len(s) >= i+1 whatever the loop's
+// bound is. No other store to s may occur inside the loop.
+func indexIntoGrownSlice(ins ssa.Instruction, idx ssa.Value) bool {
+	ia, ok := ins.(*ssa.IndexAddr)
+	if !ok {
+		return false
+	}
+	v := stripConv(idx)
+	if bo, ok := v.(*ssa.BinOp); ok && bo.Op == token.SUB {
+		if c, isC := constInt(bo.Y); isC && c >= 0 {
+			v = stripConv(bo.X)
+		}
+	}
+	ph, ok := v.(*ssa.Phi)
+	if !ok || len(ph.Edges) != 2 {
+		return false
+	}
+	header := ph.Block()
+	latchIdx := -1
+	for i, e := range ph.Edges {
+		if c, isC := constInt(e); isC && c >= 0 {
+			continue
+		}
+		bo, ok := stripConv(e).(*ssa.BinOp)
+		if !ok || bo.Op != token.ADD || stripConv(bo.X) != ssa.Value(ph) {
+			return false
+		}
+		if c, isC := constInt(bo.Y); !isC || c != 1 {
+			return false
+		}
+		latchIdx = i
+	}
+	if latchIdx < 0 {
+		return false
+	}
+	if c, isC := constInt(ph.Edges[1-latchIdx]); !isC || c < 0 {
+		return false
+	}
+	latch := header.Preds[latchIdx]
+	// the indexed slice: a load of an address (field of a local object, or a local cell)
+	ld, ok := ia.X.(*ssa.UnOp)
+	if !ok || ld.Op != token.MUL {
+		return false
+	}
+	sameAddr := func(a ssa.Value) bool {
+		if a == ld.X {
+			return true
+		}
+		fa, ok1 := a.(*ssa.FieldAddr)
+		fb, ok2 := ld.X.(*ssa.FieldAddr)
+		return ok1 && ok2 && fa.Field == fb.Field && sameBase(fa.X, fb.X)
+	}
+	// loop body: blocks dominated by the header from which the latch is reachable
+	inLoop := map[*ssa.BasicBlock]bool{}
+	var back func(b *ssa.BasicBlock)
+	back = func(b *ssa.BasicBlock) {
+		if inLoop[b] || !header.Dominates(b) {
+			return
+		}
+		inLoop[b] = true
+		if b == header {
+			return
+		}
+		for _, p := range b.Preds {
+			back(p)
+		}
+	}
+	back(latch)
+	var grow *ssa.Store
+	for blk := range inLoop {
+		for _, in := range blk.Instrs {
+			st, ok := in.(*ssa.Store)
+			if !ok || !sameAddr(st.Addr) {
+				continue
+			}
+			c, ok := st.Val.(*ssa.Call)
+			if !ok {
+				return false
+			}
+			bi, ok := c.Call.Value.(*ssa.Builtin)
+			if !ok || bi.Name() != "append" || len(c.Call.Args) == 0 {
+				return false
+			}
+			old, ok := c.Call.Args[0].(*ssa.UnOp)
+			if !ok || old.Op != token.MUL || !sameAddr(old.X) {
+				return false
+			}
+			if grow != nil {
+				return false
+			}
+			grow = st
+		}
+	}
+	if grow == nil {
+		return false
+	}
+	before := func(a, b ssa.Instruction) bool { // a executes before b on every path reaching b within one iteration
+		if a.Block() == b.Block() {
+			for _, in := range a.Block().Instrs {
+				if in == a {
+					return true
+				}
+				if in == b {
+					return false
+				}
+			}
+		}
+		return a.Block().Dominates(b.Block())
+	}
+	if !inLoop[ld.Block()] || !before(grow, ld) {
+		return false
+	}
+	// the append happens in every iteration before the counter moves on
+	return grow.Block() == latch || grow.Block().Dominates(latch)
 }
 
 // isInductionPhi: a phi one of whose incoming values is itself plus/minus something (a loop counter).
